@@ -50,7 +50,9 @@ func absSpace(name, desc string, exprs []gen.Expr, docs func() []*doc.Tree) *exp
 					switch {
 					case !eng.MatchesMode(o, want, "set"):
 						class = "denotation"
-					case o.String() != r0.String():
+					case normalise(o, "bag") != normalise(r0, "bag"):
+						// same result = same nodes with the same multiplicities (the order in
+						// which a non-flat path yields them is not specified anywhere)
 						class = "start-dependent"
 					}
 					if class == "" {
@@ -59,7 +61,8 @@ func absSpace(name, desc string, exprs []gen.Expr, docs func() []*doc.Tree) *exp
 					}
 					w.EngOutcome(class)
 					ec := &evalCase{Expr: s, AST: ast, T: t, Ctx: n, Op: "evaluate", Mode: "seq"}
-					exp := r0.String()
+					ec.Mode = "bag"
+					exp := normalise(r0, "bag")
 					if class == "denotation" {
 						ec.Mode = "set"
 						exp = want.String()
